@@ -129,15 +129,44 @@ def subclass_polling(rep, rng, tier):
     from qutip.solver.result import Result
     from qutip.solver.multitrajresult import MultiTrajResult, McResult, NmmcResult
     viol = []
-    TL = [0.0, 0.5, 1.0]
+    TL = [0.0, 0.3, 1.0]          # unequal steps
     eops = [qutip.Qobj(np.diag([1., 0., 0.])), qutip.Qobj(np.diag([0., 1., 2.]))]
 
-    def mk(opts, j):
+    def collapses_of(j):
+        return [(round(0.05 + (0.17 * j) % 0.9, 6), j % 2), (0.8, 0)] if j % 3 else [(0.29, 1)]
+
+    def photo_ref(sam):
+        """weighted mean of the per-trajectory photocurrents: counts per output interval / its length"""
+        n = max(len(sam), 1)
+        out = np.zeros((2, len(TL) - 1))
+        for j, w in sam:
+            for t, which in collapses_of(j):
+                k = int(np.searchsorted(TL, t, side="right") - 1)
+                if 0 <= k < len(TL) - 1:
+                    out[which, k] += (w / n) / (TL[k + 1] - TL[k])
+        return out
+
+    def trace_ref(det, sam):
+        n = max(len(sam), 1)
+        m1, m2 = np.zeros(len(TL)), np.zeros(len(TL))
+        for j, w in det:
+            tr_ = np.array(mk(None, j, trace_only=True))
+            m1 += w * tr_
+            m2 += w * tr_ ** 2
+        for j, w in sam:
+            tr_ = np.array(mk(None, j, trace_only=True))
+            m1 += (w / n) * tr_
+            m2 += (w / n) * tr_ ** 2
+        return m1, m2
+
+    def mk(opts, j, trace_only=False):
+        if trace_only:
+            return [[0.5, 1.0, 1.5, 2.0, 0.25][(j + i) % 5] for i in range(len(TL))]
         tr = Result(eops, opts)
         for i, t in enumerate(TL):
             d = np.array([((3 * j + i) % 8) / 8.0, ((5 * j + 2 * i + 1) % 8) / 8.0, ((j + i) % 4) / 4.0])
             tr.add(t, qutip.Qobj(np.diag(d)))
-        tr.collapse = [(0.25, 0)]
+        tr.collapse = collapses_of(j)
         tr.trace = [[0.5, 1.0, 1.5, 2.0, 0.25][(j + i) % 5] for i in range(len(TL))]
         return tr
 
@@ -166,7 +195,7 @@ def subclass_polling(rep, rng, tier):
         for keep, ss, sf in itertools.product((True, False), (True, False), (True, False)):
             opts = {"store_states": ss, "store_final_state": sf, "keep_runs_results": keep, "normalize_output": False, "progress_bar": "", "progress_kwargs": {}}
             full = dict(opts, store_states=True, store_final_state=True)
-            stats = {"num_collapse": 1, "run time": 0.0}
+            stats = {"num_collapse": 2, "run time": 0.0}
 
             def fresh():
                 return cls(eops, opts, stats=dict(stats))
@@ -197,6 +226,18 @@ def subclass_polling(rep, rng, tier):
                             wt += (w / n) * np.array(mk(full, j).trace)
                         if np.abs(np.array(obj.average_trace) - wt).max() > 1e-9:
                             viol.append((f"poll-trace:{cls.__name__}", f"{label}: average_trace is not the weighted mean of the traces added so far"))
+                        m1, m2 = trace_ref(det, sam)
+                        if np.abs(np.array(obj.std_trace) - np.sqrt(np.abs(m2 - m1 ** 2))).max() > 1e-9:
+                            viol.append((f"poll-std-trace:{cls.__name__}", f"{label}: std_trace is not the weighted spread of the traces added so far"))
+                    if cls is McResult and sam:
+                        ph = np.array(obj.photocurrent)
+                        if ph.shape != (2, len(TL) - 1) or np.abs(ph - photo_ref(sam)).max() > 1e-9:
+                            viol.append((f"poll-photocurrent:{cls.__name__}", f"{label}: photocurrent on the time list {TL} is not the weighted mean of the trajectories' photocurrents (counts per interval / its length): {ph.tolist()} against {photo_ref(sam).tolist()}"))
+                        if keep:
+                            rp = np.array(obj.runs_photocurrent)
+                            wr = np.asarray(obj.runs_weights, dtype=float).ravel()
+                            if rp.shape[0] == len(wr) and np.abs(np.tensordot(wr, rp, axes=(0, 0)) - ph).max() > 1e-9:
+                                viol.append((f"poll-photocurrent-runs:{cls.__name__}", f"{label}: photocurrent is not the mean of runs_photocurrent with the reported weights"))
                 except Exception as e:      # noqa
                     viol.append((f"poll-raises:{cls.__name__}", f"{label}: {type(e).__name__}: {e}"[:200]))
 
@@ -255,6 +296,18 @@ def subclass_polling(rep, rng, tier):
                                 viol.append((f"merge-states:{cls.__name__}", f"{what}: average_states is not the p : 1-p mixture"))
                             if (ss or sf) and np.abs(diag(M_.average_final_state) - st[-1]).max() > 1e-9:
                                 viol.append((f"merge-final:{cls.__name__}", f"{what}: average_final_state is not the p : 1-p mixture (off by {np.abs(diag(M_.average_final_state) - st[-1]).max():.2e})"))
+                            if with_trace:
+                                ax, a2x = trace_ref(dx, sx)
+                                ay, a2y = trace_ref(dy, sy)
+                                m1, m2 = pe * ax + (1 - pe) * ay, pe * a2x + (1 - pe) * a2y
+                                if np.abs(np.array(M_.average_trace) - m1).max() > 1e-9:
+                                    viol.append((f"merge-trace:{cls.__name__}", f"{what} with {len(sx)} and {len(sy)} sampled trajectories: average_trace is not the p : 1-p mixture (off by {np.abs(np.array(M_.average_trace) - m1).max():.2e})"))
+                                elif np.abs(np.array(M_.std_trace) - np.sqrt(np.abs(m2 - m1 ** 2))).max() > 1e-9:
+                                    viol.append((f"merge-std-trace:{cls.__name__}", f"{what}: std_trace is not the spread of the p : 1-p mixture"))
+                            if cls is McResult:
+                                php = pe * photo_ref(sx) + (1 - pe) * photo_ref(sy)
+                                if np.abs(np.array(M_.photocurrent) - php).max() > 1e-9:
+                                    viol.append((f"merge-photocurrent:{cls.__name__}", f"{what}: photocurrent is not the p : 1-p mixture"))
                 except Exception as e:      # noqa
                     viol.append((f"merge-raises:{cls.__name__}", f"{lab}: merge raises {type(e).__name__}: {e}"[:200]))
     return viol
